@@ -1348,7 +1348,9 @@ def run_C19(tier, rng, chk):
     syms = []
     for c in chk.lib_c_files():
         o = os.path.join(od, os.path.basename(c) + ".o")
-        rc, so, se = chk.sh(["gcc", "-O0", "-c"] + chk.INC + [c, "-o", o])
+        # not position independent: constant tables of pointers then live in .rodata ('r'), only
+        # objects that really are writable show up as 'd' / 'b'
+        rc, so, se = chk.sh(["gcc", "-O0", "-fno-pic", "-fno-pie", "-c"] + chk.INC + [c, "-o", o])
         if rc != 0:
             continue
         rc, so, se = chk.sh(["nm", o])
